@@ -2,6 +2,8 @@ package main
 
 import (
 	"fmt"
+	"math"
+	"strconv"
 	"strings"
 
 	"go.1password.io/spg"
@@ -46,6 +48,49 @@ func ho17File(i int) string {
 		parts[k] = fmt.Sprintf("w%dx", k)
 	}
 	return strings.Join(parts, " ") + "\nlast line\n"
+}
+
+// ho17Entropy: log2 of the exact number of passwords of a class-only recipe,
+// computed independently of the library (inclusion-exclusion over the required
+// classes, which are pairwise disjoint, in the log domain).
+func ho17Entropy(ref *spg.CharRecipe, length int) float64 {
+	size := func(f spg.CTFlag) int {
+		r := spg.CharRecipe{Length: 1, Allow: f, Exclude: ref.Exclude}
+		return len(strings.Split(r.Alphabet(), "")) * b2i(r.Alphabet() != "")
+	}
+	a := len(strings.Split(ref.Alphabet(), ""))
+	var req []int
+	for _, f := range []spg.CTFlag{spg.Uppers, spg.Lowers, spg.Digits, spg.Symbols, spg.Ambiguous} {
+		if ref.Require&f != 0 {
+			if n := size(f); n > 0 {
+				req = append(req, n)
+			}
+		}
+	}
+	sum := 0.0
+	for s := 0; s < 1<<uint(len(req)); s++ {
+		removed, bits := 0, 0
+		for i, n := range req {
+			if s&(1<<uint(i)) != 0 {
+				removed += n
+				bits++
+			}
+		}
+		term := math.Pow(float64(a-removed)/float64(a), float64(length))
+		if bits%2 == 1 {
+			sum -= term
+		} else {
+			sum += term
+		}
+	}
+	return float64(length)*math.Log2(float64(a)) + math.Log2(sum)
+}
+
+func b2i(b bool) int {
+	if b {
+		return 1
+	}
+	return 0
 }
 
 func ho17Validate(stdout string, want func(pw string) bool, what string) {
@@ -107,6 +152,15 @@ func HO17c() {
 			return
 		}
 		ho17Validate(stdout, func(s string) bool { return s == fmt.Sprintf("%.2f", ref.Entropy()) }, "opgen --entropy does not print the library recipe's entropy to two decimals")
+		// and that number is the recipe's entropy: the Ambiguous class overlaps the
+		// others, so the independent count is used when it is not required
+		if ref.Require&spg.Ambiguous == 0 {
+			got, _ := strconv.ParseFloat(strings.TrimSpace(stdout), 64)
+			want := ho17Entropy(ref, length)
+			if want > 0 && !math.IsInf(want, 0) {
+				vAssert(math.Abs(got-want) <= 0.011+want*1e-5, "the entropy opgen prints is not log2 of the number of passwords the recipe admits")
+			}
+		}
 		vReach("entropy")
 		return
 	}
